@@ -199,13 +199,13 @@ theorem writers_mirror (cap : Nat) (tm : TM) (slices : List (List CS)) (kept : L
     (hfold : foldCols (tm.cols.flatMap (·.entries)) = .ok kept)
     (htab : C03.MdWritable tm.table) (hcols : ∀ col ∈ tm.cols, C03.MdWritable col)
     (hkept : ∀ k ∈ kept, ∀ d, k.dflt = some d → Writable d)
-    (hsl : ∀ s ∈ slices, ∀ x ∈ s, x.Writable) :
+    (hsl : ∀ s ∈ slices, ∀ x ∈ s, x.Writable) (hlen : ∀ s ∈ slices, s.length = tm.cols.length) :
     ∃ fs : List Field, ∀ sw : Bool,
       Emits (writeFile { swap := sw, cap := cap } ⟨tm, slices.map (fun s => ⟨s.map some⟩)⟩)
         (render { swap := sw, cap := cap } fs) := by
   refine ⟨F.file (C03.canonPhys tm kept) slices, fun sw => ?_⟩
   rw [← file_fields]
-  exact C03.file_bytes _ tm slices kept hfold htab hcols hkept hsl
+  exact C03.file_bytes _ tm slices kept hfold htab hcols hkept hsl hlen
 
 /-- a missing conversion is visible: the little-endian reader does not read big-endian numbers -/
 example : readInt32 LE (le BE 1).toArray 0 = .ok (16777216, 4) ∧ readInt32 BE (le BE 1).toArray 0 = .ok (1, 4) :=
